@@ -340,7 +340,8 @@ func augmentCall(call *Call, f *ast.FuncDecl) {
 			})
 			str = fmt.Sprintf("%s(%s, len=%s)", t, name, lenStr)
 		default:
-			if strings.HasPrefix(t, "*") {
+			if strings.HasPrefix(t, "*") || strings.HasPrefix(t, "map[") || strings.HasPrefix(t, "chan ") || t == "func" {
+				// Pointers, maps, channels and funcs are a single word.
 				str = fmt.Sprintf("%s(%s)", t, popName())
 			} else if strings.HasPrefix(t, "[]") {
 				name := popName()
